@@ -131,6 +131,122 @@ row!(from_string, 5, 0, 1, 2, 3, 4, 5);
 row!(finding_long_to_int, 1, 0);
 row!(finding_double_to_float, 3, 2);
 
+/// enum resolution: the writer's symbol is matched BY NAME against the reader's symbols
+/// (reader = {a, b, c}, optional reader default); writer symbol W (const: a, c, z) carried with an
+/// arbitrary writer-side index; both value forms (Enum(i, s), String(s)).
+fn enum_case<const SYM: u8, const DEFAULT: u8, const AS_STRING: bool>(widx: u32) {
+    let symbols = vec!["a".to_string(), "b".to_string(), "c".to_string()];
+    let default: Option<String> = match DEFAULT {
+        0 => None,
+        _ => Some("b".to_string()),
+    };
+    let w = match SYM {
+        0 => "a",
+        1 => "c",
+        _ => "z",
+    };
+    let v = if AS_STRING { Value::String(w.to_string()) } else { Value::Enum(widx, w.to_string()) };
+    // specification: symbol present in the reader -> that symbol at the READER's index;
+    // absent -> the reader's default if it has one, else an error
+    let want: Option<(u32, &str)> = match (SYM, DEFAULT) {
+        (0, _) => Some((0, "a")),
+        (1, _) => Some((2, "c")),
+        (_, 0) => None,
+        (_, _) => Some((1, "b")),
+    };
+    match v.resolve_enum(&symbols, &default, None) {
+        Ok(r) => {
+            match (&r, want) {
+                (Value::Enum(i, s), Some((wi, ws))) => assert!(*i == wi && s.as_str() == ws, "enum resolved to a different symbol / index than matching by name prescribes"),
+                _ => assert!(false, "a value was returned for a writer symbol the reader does not have (and no default)"),
+            }
+            leak(r);
+        }
+        Err(e) => {
+            leak(e);
+            assert!(want.is_none(), "resolution failed although the symbol (or a default) exists in the reader");
+        }
+    }
+    leak(symbols);
+    leak(default);
+}
+
+harness!(
+    /// enum symbols are matched by name, the writer-side index is irrelevant (all u32), unknown
+    /// symbols fall back to the reader's default or fail
+    enum_by_name, unwind = 8, {
+    let widx = any_u32();
+    enum_case::<0, 0, false>(widx);
+    enum_case::<1, 0, false>(widx);
+    enum_case::<2, 0, false>(widx);
+    enum_case::<2, 1, false>(widx);
+    enum_case::<1, 1, true>(widx);
+    enum_case::<2, 1, true>(widx);
+    enum_case::<2, 0, true>(widx);
+    witness!(widx == 7, "writer index outside the reader's symbols");
+});
+
+/// reader union [null, long, string]: the branch is selected by the type of the written value
+/// (exact kind first, else the first branch the value can be promoted to); no branch -> error.
+/// K: 0 null, 1 long, 2 int (promoted), 3 string, 4 boolean (no branch), 5 float (no branch), 6 Union(1, Long) (writer union unwrapped)
+fn union_case<const K: u8>(schema: &Schema, names: &Names, n: i32, b: bool) {
+    let v = match K {
+        0 => Value::Null,
+        1 => Value::Long(n as i64),
+        2 => Value::Int(n),
+        3 => Value::String("s".to_string()),
+        4 => Value::Boolean(b),
+        5 => Value::Float(1.5),
+        _ => Value::Union(1, Box::new(Value::Long(n as i64))),
+    };
+    let want: Option<u32> = match K {
+        0 => Some(0),
+        1 | 2 | 6 => Some(1),
+        3 => Some(2),
+        _ => None,
+    };
+    match v.resolve_internal(schema, names, None, None) {
+        Ok(r) => {
+            match (&r, want) {
+                (Value::Union(i, inner), Some(w)) => {
+                    assert!(*i == w, "a different union branch was selected than the type of the value prescribes");
+                    let ok = match (&**inner, w) {
+                        (Value::Null, 0) => true,
+                        (Value::Long(x), 1) => *x == n as i64,
+                        (Value::String(st), 2) => st == "s",
+                        _ => false,
+                    };
+                    assert!(ok, "the value inside the selected branch differs / was not promoted to the branch type");
+                }
+                _ => assert!(false, "a value was returned although no branch of the reader union matches"),
+            }
+            leak(r);
+        }
+        Err(e) => {
+            leak(e);
+            assert!(want.is_none(), "resolution against the union failed although a branch matches");
+        }
+    }
+}
+
+harness_nodec!(
+    /// union branch selection by value type, all i32 payloads
+    union_branch_selection, unwind = 8, {
+    use crate::schemas::*;
+    let names = no_names();
+    let schema = union(vec![Schema::Null, Schema::Long, Schema::String]);
+    let n = any_i32();
+    let b = any_bool();
+    union_case::<0>(&schema, &names, n, b);
+    union_case::<1>(&schema, &names, n, b);
+    union_case::<2>(&schema, &names, n, b);
+    union_case::<3>(&schema, &names, n, b);
+    union_case::<6>(&schema, &names, n, b);
+    witness!(n == i32::MIN, "extreme payload");
+    leak(schema);
+    leak(names);
+});
+
 pub const HARNESSES: &[(&str, fn())] = &[
     ("c08::from_int", from_int::body),
     ("c08::from_long", from_long::body),
@@ -138,6 +254,8 @@ pub const HARNESSES: &[(&str, fn())] = &[
     ("c08::from_double", from_double::body),
     ("c08::from_bytes", from_bytes::body),
     ("c08::from_string", from_string::body),
+    ("c08::enum_by_name", enum_by_name::body),
+    ("c08::union_branch_selection", union_branch_selection::body),
     ("c08::finding_long_to_int", finding_long_to_int::body),
     ("c08::finding_double_to_float", finding_double_to_float::body),
 ];
